@@ -71,7 +71,7 @@ def set_at(doc, path, val):
     d[path[-1]] = val
 
 
-TOK = {"NL": "\n", "STARSLASH": "*/", "BQ": "`", "DQ": "\"", "BS": "\\", "TXT": "zz"}
+TOK = {"NL": "\n", "CRLF": "\r\n", "STARSLASH": "*/", "BQ": "`", "DQ": "\"", "BS": "\\", "TXT": "zz"}
 FILLERS = {"decl": "var Injected_%d = 1", "field": "Injected_%d int", "method": "Injected_%d()"}
 
 
@@ -79,8 +79,13 @@ def payload_text(breakout, filler, n):
     """break out of the context with the abstract payload, place the filler, re-enter the context"""
     b = "".join(TOK[t] for t in breakout)
     f = FILLERS[filler] % n
-    if breakout == ["NL"]:
-        return "zz" + b + f + "\n// zz"
+    if all(t in ("NL", "CRLF") for t in breakout):
+        # line terminators, possibly mixed: text, terminator, text, ..., last terminator, filler, re-enter
+        out = "zz"
+        for i, t in enumerate(breakout[:-1]):
+            out += TOK[t] + "yy%d" % i
+        last = TOK[breakout[-1]]
+        return out + last + f + last + "// zz"
     if breakout == ["STARSLASH"]:
         return "zz " + b + " " + f + " /* zz"
     if breakout == ["BQ"]:
@@ -196,6 +201,8 @@ def check_c10(run):
                evaluations=len(events), distinct_nontrivial=built,
                rule="documents {rich, nested anonymous schemas} x input format {json, yaml} x flatten mode {minimal, full, expand} x string content class (quick: all modes/formats with plain content + content classes under three mode/format pairs)",
                samples=[e["case"] for e in events[:3]], servers_built=built, not_built=len(events) - built, rejected_events=len(seen))
+    import frame_family
+    fv, fcov = frame_family.frame_stage(run); run.violations += fv; cov.update(fcov)
     return finish(run, "model_checking", cov, ["spec.ExpandSpec and loads (pinned dependencies) resolve $refs faithfully",
                                                "the YAML rendering of the input is produced by yaml.v3 with double-quoted scalars"])
 
@@ -211,14 +218,17 @@ def check(run, replay=None):
     # every shortest (one-token) break-out of the unescaped (context, no escaper) pairs
     breakouts = sorted({json.dumps(e["payload"]) for t, e in mc["emitted"] if t == "CASE" and e["esc"] == "none" and len(e["payload"]) == 1})
     breakouts = [json.loads(b) for b in breakouts]
-    if len(breakouts) < 4:
+    if len(breakouts) < 5:
         raise Infra("GoLex produced too few break-out payloads: %r" % breakouts)
+    # mixes of the two line terminators (an escaper that normalises one of them must not let the other through)
+    if ["NL"] in breakouts and ["CRLF"] in breakouts:
+        breakouts += [["CRLF", "NL"], ["NL", "CRLF"]]
     base = base_spec()
     all_sites = sites(base)
     combos = []
     for s in all_sites:
         for b in breakouts:
-            fills = ["decl", "field", "method"] if b in (["NL"], ["STARSLASH"]) else ["decl"]
+            fills = ["decl", "field", "method"] if b in (["NL"], ["STARSLASH"], ["CRLF", "NL"]) else ["decl"]
             for f in fills:
                 combos.append((s, b, f))
     rnd = random.Random(run.seed)
